@@ -112,14 +112,14 @@ def gen_cases(ctx, scale):
                         # sampled; thorough: every id pattern and every follow-up
                         pats = idsets[1:4] if scale > 1 else [idsets[rr[0] % len(idsets)], idsets[(rr[0] // 2 + 1) % 4]][:(2 if fam == 'N' else 1)]
                         rr[0] += 1
-                        for ids in pats:
+                        for pi, ids in enumerate(pats):
                             posts = posts_for(tr, kind, op, ids)
-                            take = posts if scale > 1 else [r.choice(posts)]
+                            take = posts if (scale > 1 and pi == 0) else [r.choice(posts)]
                             for post in take:
                                 add(tr, kind, op, ss, r.choice(tss), ids, post)
                 # the follow-ups on a moved-from source, exhaustively (this is where D11/D12/D13 live)
                 fss = states_for(kind, 's')
-                for ss in (fss[1:4] if scale > 1 else [fss[2]]):
+                for ss in (fss[1:3] if scale > 1 else [fss[2]]):
                     for ids in (idsets if scale > 1 else idsets[:3]):
                         for op in (['movec', 'movea'] + (['moveca'] if fam == 'W' else [])):
                             for post in ['clear', 'swapf', 'fswap', 'massign', 'cassign', 'none']:
